@@ -330,6 +330,16 @@ def run_scenario(sc):
                 if inj["kind"] == "seek":
                     consumer.seek(tp, inj["to"])
                     net.ev("a_seek", task=-2, p=inj["p"], o=inj["to"])
+                elif inj["kind"] == "seek_committed":
+                    async def call_sc():
+                        try:
+                            got = await consumer.seek_to_committed(tp)
+                            off = got.get(tp)
+                            pos = await asyncio.wait_for(consumer.position(tp), 5.0)
+                            net.ev("a_seek_committed", task=-2, p=inj["p"], committed=off, position=pos)
+                        except Exception as e:  # noqa: BLE001
+                            net.ev("a_exc", task=-2, op="seek_committed", exc=type(e).__name__, msg=str(e)[:200])
+                    pending.append(asyncio.ensure_future(call_sc()))
                 else:
                     fn = consumer.seek_to_beginning if inj["kind"] == "seek_beg" else consumer.seek_to_end
 
@@ -348,11 +358,19 @@ def run_scenario(sc):
             if p is None:
                 return
             count[p] = count.get(p, 0) + 1
-            if inj and not injected["done"] and p == inj["p"] and (
+            if inj and not injected["done"] and not injected.get("scheduled") and p == inj["p"] and (
                     count[p] == inj.get("at") or (inj.get("after_kind") == kind)):
-                injected["done"] = True
                 net.ev("inject_scheduled", p=p, after=kind, index=count[p])
-                loop.call_soon(do_inject)
+                if inj.get("delay"):
+                    injected["scheduled"] = True
+
+                    def later():
+                        do_inject()
+                        injected["done"] = True
+                    loop.call_later(inj["delay"], later)     # let the application consume something first
+                else:
+                    injected["done"] = True
+                    loop.call_soon(do_inject)
         HOOK["fn"] = hook
 
         def fetch_sent(p, o):
